@@ -76,19 +76,25 @@ def judge(tree, res):
         flat, sf = d["flat"], d["summ_fmt"]
         if not flat or not flat[0].startswith("stackscope.Stack") or not flat[0].endswith("\n"):
             return "format_flat: bad header %r" % flat[:1]
-        if (tree["root"] is not None) != (tree["root"] is not None and repr(tree["root"]) in flat[0]):
+        # the root / leaf may be a plain token string or an object whose repr carries the token
+        if (tree["root"] is not None) != (tree["root"] is not None and " of " in flat[0] and tree["root"] in flat[0]):
             return "format_flat: header does not name the root: %r" % flat[0]
         rest = flat[1:]
         if rest[:len(sf)] != sf:
             return "format_flat(show_contexts=%s) is not header + StackSummary.format():\n%r\nvs\n%r" % (key, rest, sf)
         rest = rest[len(sf):]
         if tree["leaf"] is not None:
-            if not rest or repr(tree["leaf"]) not in rest[0]:
+            if not rest or "Target of innermost frame" not in rest[0] or tree["leaf"] not in rest[0]:
                 return "format_flat: leaf line missing: %r" % rest[:1]
             rest = rest[1:]
         if tree["error"] is not None:
             if not rest or "Error" not in rest[0]:
                 return "format_flat: error lines missing: %r" % rest[:1]
+            text = "".join(rest)
+            for msg in res.get("error_messages", []):
+                if msg not in text:
+                    return "format_flat: the error lines do not mention %r (part of the recorded error's chain / group):\n%s" % (
+                        msg, text[:600])
         elif rest:
             return "format_flat: unexpected trailing lines %r" % rest
         if any((not l.endswith("\n")) for l in flat):
@@ -134,7 +140,7 @@ def real_cases():
     from hypothesis import strategies as st
     from checks import c09
     def mk(t):
-        ids = c09.plain_ids(t[0], [])
+        ids = c09.plain_ids(t[0], []) if "_unentered" not in repr(t[0]) else []
         return {"root": t[0], "hide_marks": t[1], "exiting": ids[t[2] % len(ids)] if ids and t[2] % 2 else None}
     return st.tuples(c09.roots(), st.lists(st.integers(0, 10 ** 6), min_size=0, max_size=3), st.integers(0, 10 ** 6)).map(mk)
 
